@@ -1,5 +1,5 @@
 import EmmyVerif.Props.C13
-import EmmyVerif.Lemmas.ScopeAlpha
+import EmmyVerif.Lemmas.ScopeSubst
 /-!
 # C14 — Rename and references agree with name resolution
 
@@ -54,27 +54,10 @@ theorem rename_edits_sorted (p : List Stat) (d : Nat) :
   rw [List.pairwise_map]
   exact (reference_positions_increasing p).filter _
 
-/-
-Full statement of `rename_preserves_binding` (not proved):
-
-  theorem rename_preserves_binding (p : List Stat) (tok : Nat) (new : Name)
-      (hnew : mentionsBlock new p = false) : reference (applyRename p tok new) = reference p
-
-where `applyRename` rewrites the tokens at the positions `renameEdits (implementation p) d`. Proved below
-(`rename_preserves_binding_partial`) for the renaming described through the environment: `alphaProg d new p`
-rewrites the declaration token at `d` and every use that the environment at that use binds to `d`.
-Missing: `substBlock (renameEdits (reference p) d) new startPos p = alphaProg d new p`, i.e. that the use tokens
-at the recorded positions are exactly the uses the environment binds to `d` *as tokens of the program text*
-(needs the interval structure of token positions per construct). `./check C14` evaluates both sides of that
-equation on every generated case (`scope.renamed … same`) and compares the result with the text the real
-edits produce.
--/
-
-/-- **C14 `rename_preserves_binding` (partial: α-renaming through the environment).** Renaming the
-local declaration at `d` and all uses bound to it to a name that does not occur in the program
-leaves the resolution of every name use unchanged (same use positions, same declaration
-positions): the program's binding structure is preserved. -/
-theorem rename_preserves_binding_partial (p : List Stat) (d : Nat) (new : Name)
+/-- **α-renaming through the environment.** Renaming the local declaration at `d` and all uses the
+environment binds to it to a name that does not occur in the program leaves the resolution of
+every name use unchanged (same use positions, same declaration positions). -/
+theorem alpha_preserves_binding (p : List Stat) (d : Nat) (new : Name)
     (hnew : mentionsBlock new p = false) : reference (alphaProg d new p) = reference p := by
   have h := alphaBlock_ok d new p [] { pos := startPos, out := [] } startPos rfl (fun _ h => by cases h) hnew
   unfold reference alphaProg
@@ -85,7 +68,49 @@ theorem rename_preserves_binding_partial (p : List Stat) (d : Nat) (new : Name)
 /-- the analyzer resolves the renamed program like the original one, too -/
 theorem rename_preserves_analysis (p : List Stat) (d : Nat) (new : Name)
     (hnew : mentionsBlock new p = false) : implementation (alphaProg d new p) = implementation p := by
-  rw [find_eq_lua, find_eq_lua, rename_preserves_binding_partial p d new hnew]
+  rw [find_eq_lua, find_eq_lua, alpha_preserves_binding p d new hnew]
+
+/-- what a name token denotes is never the position of a name use -/
+theorem target_not_use (p : List Stat) (tok d : Nat) (h : targetOf (reference p) tok = some d) :
+    ∀ r ∈ reference p, r.1 ≠ d := by
+  unfold targetOf at h
+  split at h
+  · rename_i r hf
+    have hm := List.mem_of_find?_eq_some hf
+    obtain ⟨u, x⟩ := r
+    simp only at h; subst h
+    exact resolved_decl_not_use p u d hm
+  · rename_i hf
+    simp only [Option.some.injEq] at h; subst h
+    intro r hr
+    have := List.find?_eq_none.mp hf r hr
+    simpa using this
+
+/-- the edit positions of a rename, applied to the program text, give exactly the α-renamed program -/
+theorem rename_edits_are_alpha (p : List Stat) (tok d : Nat) (new : Name)
+    (h : targetOf (implementation p) tok = some d) : applyRename p tok new = alphaProg d new p := by
+  rw [find_eq_lua] at h
+  unfold applyRename renameAt
+  rw [find_eq_lua, h]
+  exact subst_eq_alpha p d new (target_not_use p tok d h)
+
+/-- **C14 `rename_preserves_binding`.** Applying the edits `rename` produces at a name token (the
+declaration's token and the recorded references, each rewritten to the new name) with a name that does not
+occur in the program yields a program in which every name use resolves exactly as before: same
+use positions, same declaration positions. -/
+theorem rename_preserves_binding (p : List Stat) (tok : Nat) (new : Name)
+    (hnew : mentionsBlock new p = false) : reference (applyRename p tok new) = reference p := by
+  cases h : targetOf (implementation p) tok with
+  | none =>
+    have : applyRename p tok new = p := by
+      unfold applyRename renameAt; rw [h]; rfl
+    rw [this]
+  | some d => rw [rename_edits_are_alpha p tok d new h, alpha_preserves_binding p d new hnew]
+
+/-- and the analyzer model resolves the renamed program like the original, too -/
+theorem rename_preserves_analysis_edits (p : List Stat) (tok : Nat) (new : Name)
+    (hnew : mentionsBlock new p = false) : implementation (applyRename p tok new) = implementation p := by
+  rw [find_eq_lua, find_eq_lua, rename_preserves_binding p tok new hnew]
 
 /-- freshness is needed: renaming `x` to the name of another visible local captures uses -/
 theorem rename_needs_fresh_name :
